@@ -71,7 +71,7 @@ def adversarial_upd(rng, cid, tier):
 
 def run(ctx):
     ctx.trusted = ['Coq 8.16.1 kernel; axioms: the standard library\'s real-number axioms (ClassicalDedekindReals.sig_forall_dec, sig_not_dec, functional_extensionality_dep, Classical_Prop.classic), as printed below',
-                   'correspondence K-UPD (the three updates individually and composed), K-LIK (calculate_likelyhood on installed states), K-GRAPH vs the extracted float model, bit for bit',
+                   'correspondence K-UPD (the three updates individually and composed; the likelihood function is NOT part of this property\'s tie: C06) and K-GRAPH vs the extracted float model, bit for bit; trajectories of whole runs are observed on the implementation only',
                    'not verified: binary64 rounding -- the ascent theorems are about exact reals; "monotone up to floating-point rounding" is checked on the implementation only by the monitor (tolerance 1e-9 relative)',
                    'undirected variants: only the half-steps are proved (C01_undirected_partial); the full claim is refuted in the model for asymmetric affinities and the witness reproduces on the implementation (known finding)']
     ctx.prove()
@@ -84,7 +84,7 @@ def run(ctx):
         cases.append(gen.upd_case(cid, m['directed'], m['assort'], m['K'], m['L'], m['wtype'], m['recs'], m['u'], m['v'], m['w']))
         metas[cid] = m
     for k in range(2, 2 + ctx.budget(800, 30000)):
-        line, m = gen.gen_upd(rng.fork('u%d' % k), k)
+        line, m = gen.gen_upd(rng.fork('u%d' % k), k, wtype='i')      # integer weights: the builder's handling of real weights is C08's business
         cases.append(line)
         metas[k] = m
     base = len(cases)
@@ -92,15 +92,13 @@ def run(ctx):
         line, m = adversarial_upd(rng.fork('a%d' % k), k, ctx.tier)
         cases.append(line)
         metas[k] = m
-    res = ctx.component('K-UPD+K-LIK', cases)
-    graphs = [gen.gen_graph_random(rng.fork('g%d' % k), 500000 + k)[0] for k in range(ctx.budget(150, 2000))]
-    ctx.component('K-GRAPH', graphs)
+    res = ctx.component('K-UPD', cases, keys={'dims', 'u1', 'v1', 'w1', 'sweep_u', 'sweep_v', 'sweep_w'})
     traj, tmetas = [], {}
     for k in range(ctx.budget(80, 3000)):
         line, m = gen.gen_e2e(rng.fork('t%d' % k), 600000 + k, maxit_max=25, r_max=2, trace=2)
         traj.append(line)
         tmetas[600000 + k] = m
-    res2 = ctx.component('K-E2E', traj)
+    res2 = ctx.component('K-E2E(trajectories, implementation only)', traj, model=False)
     stats = {'steps': 0, 'clean': 0, 'excepted': 0, 'unreachable': 0, 'decreases': {}}
     keys = set()
     if res:
